@@ -182,6 +182,8 @@ def check(repo, rep):
         ok = (g is not None and g[2] == ('c', 0) and g[0] == '==') or (l.conds and l.conds[-1][0][0] == 'attr' and l.conds[-1][1] is False) or (g is not None and (g[0], g[2]) in (('<', ('c', 1)), ('<=', ('c', 0))))
         rep.ob('a window shorter than one sample (int(window*rate) == 0) is rejected', ok, cx.where('util', l.node), '_FixedSizeAudioReader.__init__:TooSmallBlockDuration', 'raised under %s' % (show(l.conds[-1][0]) if l.conds else None))
     rep.ob('a window shorter than one sample is rejected', bool(small), cx.where('util', cx.fn('util', '_FixedSizeAudioReader.__init__')), '_FixedSizeAudioReader.__init__:no-too-small-guard')
+    from .c10 import check_reported_durations
+    check_reported_durations(cx, rep)          # the window split() uses for reader inputs is the reader's reported block duration
     rep.explanation = ('Conversion sites and guard table of split() decided from provenance terms on every path: min_dur -> ceil with a NEGATIVE tolerance, max_dur and max_silence -> floor with a '
                        'POSITIVE tolerance, all three over the same window; the window is the reader\'s block duration for AudioReader inputs, otherwise FirstOf(kwargs; analysis_window, aw; default), '
                        'and the reader is framed with that same window; split() raises ValueError exactly for the 7 documented guards and for nothing else, and every successful path has passed the '
